@@ -393,11 +393,11 @@ impl Prop for C15 {
         if files.len() < 2 {
             return None;
         }
-        // one tree in four lives in several directories; half of those get two files with the same
+        // one tree in three lives in several directories; two thirds of those get two files with the same
         // base name in different directories (the same path text then names different files)
-        if ch.chance(1, 4) {
+        if ch.chance(1, 3) {
             gen::place_in_dirs(&mut files, ch, false);
-            if ch.chance(1, 2) {
+            if ch.chance(2, 3) {
                 gen::clash_basenames(&mut files, ch);
             }
         }
